@@ -8,9 +8,14 @@
      (4) extras at class level are invisible (class_ignores_extras);
      (5) the alias targets that cannot be dispatched are all listed findings.
    The full statement — forall T j, valid mm T j -> exists n o j', structure n (py_of T) j = Ok o /\ unstr n (py_of T) o = Ok j' /\ NEq j j' —
-   is kept below as [C01_statement]; its generic proof (hook soundness by abstract interpretation) is being extended from
-   the fragment of LSP.RoundTrip; until then the round trip is validated on every run by the correspondence
-   stream (model = real converter on every generated valid input) and the oracle on the real converter's results. *)
+   is kept below as [C01_statement].  ROUND 2: it is PROVED for the covered part of the package in props/Cover.v (compiled with
+   this file on every run): [mm_covered_roundtrip] / [mm_covered_roundtrip_structures] — for every covered structure (and every
+   covered annotation that is the image of a metamodel type), EVERY closed-valid JSON value parses into a well-typed value that
+   serialises back to the input up to null-valued members (LSP.Link: metamodel validity => Python-side validity; LSP.RoundTrip /
+   LSP.HookFrag: Python-side validity => round trip; coverage pinned by [cover_not_shrunk]).  Outside the covered part (68 classes
+   that reach a union whose hook is outside the proved fragment, message envelopes at the metamodel level) the round trip is
+   validated on every run by the correspondence stream (model = real converter on every generated valid input) and the oracle
+   on the real converter's results. *)
 From LSP Require Import Base MM Sem SemThy Disp Image ImageThy.
 From Gen Require Import MMData PkgData Known.
 
